@@ -4,6 +4,7 @@ import (
 	"bytes"
 	"crypto/rand"
 	"errors"
+	"fmt"
 	"math"
 	"math/big"
 	mrand "math/rand"
@@ -272,22 +273,30 @@ func (qrf *QUICRandomFrames) BuildForDatagram(_ int, cryptoData []byte, baseOffs
 }
 
 // buildInternal is the shared implementation for Build and BuildForDatagram.
-func (qrf *QUICRandomFrames) buildInternal(cryptoData []byte, baseOffset uint64) (payload []byte, err error) {
-	// check all bounds
+// validate checks the bounds of qrf. [UQUIC]
+func (qrf *QUICRandomFrames) validate() error {
 	if qrf.MinPING > qrf.MaxPING {
-		return nil, errors.New("MinPING must be less than or equal to MaxPING")
+		return errors.New("MinPING must be less than or equal to MaxPING")
 	}
 	if qrf.MinCRYPTO < 1 {
-		return nil, errors.New("MinCRYPTO must be at least 1")
+		return errors.New("MinCRYPTO must be at least 1")
 	}
 	if qrf.MinCRYPTO > qrf.MaxCRYPTO {
-		return nil, errors.New("MinCRYPTO must be less than or equal to MaxCRYPTO")
+		return errors.New("MinCRYPTO must be less than or equal to MaxCRYPTO")
 	}
 	if qrf.MinPADDING < 1 && qrf.Length != 0 {
-		return nil, errors.New("MinPADDING must be at least 1 if Length is not 0")
+		return errors.New("MinPADDING must be at least 1 if Length is not 0")
 	}
 	if qrf.MinPADDING > qrf.MaxPADDING && qrf.Length != 0 {
-		return nil, errors.New("MinPADDING must be less than or equal to MaxPADDING if Length is not 0")
+		return errors.New("MinPADDING must be less than or equal to MaxPADDING if Length is not 0")
+	}
+	return nil
+}
+
+func (qrf *QUICRandomFrames) buildInternal(cryptoData []byte, baseOffset uint64) (payload []byte, err error) {
+	// check all bounds
+	if err := qrf.validate(); err != nil {
+		return nil, err
 	}
 
 	var frameList QUICFrames = make([]QUICFrame, 0)
@@ -404,6 +413,14 @@ func (m *QUICMultiDatagramFrames) Build(cryptoData []byte) ([]byte, error) {
 func (m *QUICMultiDatagramFrames) BuildForDatagram(datagramIdx int, cryptoData []byte, baseOffset uint64) ([]byte, error) {
 	if len(m.PerDatagram) == 0 {
 		return nil, errors.New("QUICMultiDatagramFrames: PerDatagram must not be empty")
+	}
+	// Reject an invalid entry before the first datagram is built: checked lazily, a bad
+	// PerDatagram[1] would only surface once datagram 0 — the head of the ClientHello — is
+	// already on the wire.
+	for i := range m.PerDatagram {
+		if err := m.PerDatagram[i].validate(); err != nil {
+			return nil, fmt.Errorf("QUICMultiDatagramFrames: PerDatagram[%d]: %w", i, err)
+		}
 	}
 	idx := datagramIdx
 	if idx >= len(m.PerDatagram) {
